@@ -137,7 +137,18 @@ Entries == <<
   [n |-> "DMS.Encode3", k |-> "validating", a |-> <<"num">>, o |-> 1],
   [n |-> "DMS.EncodePrec", k |-> "validating", a |-> <<"num">>, o |-> 1],
   [n |-> "Utility.str", k |-> "validating", a |-> <<"num">>, o |-> 1],
-  [n |-> "GeoCoords.reps", k |-> "validating", a |-> <<"lat", "num">>, o |-> 1] >>
+  [n |-> "GeoCoords.reps", k |-> "validating", a |-> <<"lat", "num">>, o |-> 1],
+  [n |-> "LambertConformalConic.ctor3", k |-> "ctor", a |-> <<"a", "f", "sinlat", "coslat", "sinlat", "coslat", "k0">>, o |-> 0],
+  [n |-> "AlbersEqualArea.ctor3", k |-> "ctor", a |-> <<"a", "f", "sinlat", "coslat", "sinlat", "coslat", "k0">>, o |-> 0],
+  [n |-> "Geodesic.ctorx", k |-> "ctor", a |-> <<"a", "f">>, o |-> 0],
+  [n |-> "Rhumb.ctorx", k |-> "ctor", a |-> <<"a", "f">>, o |-> 0],
+  [n |-> "TransverseMercator.ctorx", k |-> "ctor", a |-> <<"a", "fpos", "k0">>, o |-> 0],
+  [n |-> "NormalGravity.ctorJ2", k |-> "ctor", a |-> <<"a", "gm", "omega", "j2">>, o |-> 0],
+  [n |-> "EllipticFunction.ctor4", k |-> "ctor", a |-> <<"k2", "k2", "num", "num">>, o |-> 0],
+  [n |-> "DAuxLatitude.ctor", k |-> "ctor", a |-> <<"a", "f">>, o |-> 0],
+  [n |-> "LocalCartesian.ctor", k |-> "member", a |-> <<"num", "num", "num">>, o |-> 3],
+  [n |-> "UTMUPS.TransferHemi", k |-> "validating", a |-> <<"num", "num", "hemi">>, o |-> 2],
+  [n |-> "UTMUPS.TransferMatch", k |-> "validating", a |-> <<"num", "num", "hemi">>, o |-> 2] >>
 
 (* ------------------------------------------------------------------------ *)
 (* Is a value class acceptable for an argument sort?  "no": the call must    *)
@@ -153,6 +164,10 @@ Invalid(sort, c) ==
     [] sort = "fpos"   -> c \notin {"denorm", "tiny"}              \* exact transverse Mercator: 0 < f < 1
     [] sort = "stdlat" -> c \in {"nan", "pinf", "ninf", "huge", "max", "p180", "n180", "p90u", "n90u"}
     [] sort = "k2"     -> c \in {"pinf", "huge", "max", "p90", "p180", "p90u"}                         \* parameter <= 1 (NaN: not stated)
+    [] sort = "sinlat" -> c \in {"nan", "pinf", "ninf", "huge", "max", "p90", "n90", "p180", "n180", "p90u", "n90u"}        \* a sine: |v| <= 1
+    [] sort = "coslat" -> c \in {"nan", "pinf", "ninf", "neg", "huge", "max", "p90", "n90", "p180", "n180", "p90u", "n90u"} \* cosine of a latitude: 0 <= v <= 1
+    [] sort = "j2"     -> c \in {"nan", "pinf", "ninf"}
+    [] sort = "hemi"   -> c \in {"pzero", "nzero"}             \* flag argument: zero means the other hemisphere, which must be refused
     [] sort = "lat"    -> c \in {"pinf", "ninf", "huge", "max", "p180", "n180", "p90u", "n90u"}        \* documented latitude range
     [] OTHER -> FALSE
 
